@@ -1,19 +1,45 @@
 (* C12 -- value references and imports resolve exactly like the literals they name.
-   Statements only; model in Front/Resolve.v, proofs in Front/ResolveProofs.v.
+   Statements only; model in Front/Resolve.v, proofs in Front/ResolveProofs.v (lookup level) and
+   Front/ResolveSubstProofs.v (whole types / definitions / modules / module sets).
 
-   PARTIAL.  What is proved is the lookup level: *whatever* `value_reference` finds for a name -- in the module
-   itself or, through the first import listing the name, in the module of the scope matched by OID equality (when
-   that module has one) or else by name -- a use site resolves exactly like the literal found, for INTEGER range
-   bounds, SIZE bounds (values that are sizes) and DEFAULT values; a name that is not found is
-   FailedToResolveReference, a non-INTEGER value in a range/SIZE is FailedToParseLiteral, and such an error is the
-   result of the enclosing constraint (no substituted bound).  NOT proved: the lifting over the whole AST with an
-   explicit `abstract_refs` (DESIGN.md C12_subst) and the load-order theorem; those are covered by the differential
-   tie (ops 3302/3304) only.
-   Refuted (witnesses below): (0..MAX) folding depends on the 0 being a literal; SIZE(0..MAX, ...) is rejected only
-   when 0 and MAX are literals; cyclic IMPORTS of an undefined name do not return.
+   PROVED, at the level of the parsed AST (uty / uasn / umodel), for every constructor of the type language:
+   * C12_subst_type / _definition / _module / _all.  [abs_ty Ms M t t']: t' is t where any subset of the literals at
+     INTEGER range bounds, SIZE bounds and DEFAULT values has been replaced by references, each of which the lookup of
+     the scope (Ms, M) -- local first, then the first import listing the name, the module matched by OID equality or
+     else by name: *whatever* `value_reference` does -- binds to exactly that literal (SIZE: to a non-negative INTEGER
+     of that value).  Then t' resolves exactly like t (same model, same error, same divergence).  Module level: every
+     module of the scope may be abstracted at once (the bindings themselves are never touched: IMPORTS, names and values
+     of the value assignments are equal), the scope Ms' replaces Ms in all lookups, and
+     resolve_model Ms' M' = resolve_model Ms M, resolve_all Ms' = resolve_all Ms.
+     The only side condition is the F12 exception, stated exactly ([default_exception]): a DEFAULT reference is not
+     read as a value reference when the component's type is a reference whose *definition* lookup finds an ENUMERATED
+     with an item of that name (then the DEFAULT is that item), or does not return.
+   * C12_literalize_type / _module / _all: the same as a function, without hypotheses.  [lit_ty Ms M] replaces every
+     reference that can be replaced (bound to an INTEGER / a non-negative INTEGER / any value, outside the F12 exception)
+     by its literal and keeps the others; literalizing every module of the scope never changes the result of
+     resolve_ty / resolve_model / resolve_all.  C12_literalize_complete_type / _module: when the type / module resolves,
+     its literalization contains no reference at an INTEGER or SIZE bound and none at a DEFAULT outside the F12
+     exception, i.e. "every reference is replaced".
+   * C12_unresolved_is_error_type / _module / _all and C12_non_integer_is_error_type / _module / _all: a type that
+     contains, anywhere (through OPTIONAL, SEQUENCE/SET components, SEQUENCE OF/SET OF, CHOICE), a reference that no
+     module binds (at a range bound, a SIZE bound, or as a DEFAULT outside the ENUMERATED special case), resp. a
+     reference bound to a non-INTEGER at a range/SIZE bound or to a negative INTEGER at a SIZE bound, does not resolve to
+     a model (RErr or RDiverge; *which* error is the first one in traversal order, not claimed); neither does a module
+     with such a definition / value assignment, nor a module set containing such a module.
+   * C12_order_irrelevant_module / _all / _all_error: under Permutation of the load order, if every import of every
+     loaded module is answered by at most one loaded module (by OID equality or by name), every module resolves to the
+     same model, the list of resolved models is permuted, and failure is preserved.
+   The lookup-level theorems (C12_subst_*_partial, C12_unresolved_is_error, ...) are kept.
+
+   NOT proved / outside these statements: the statements are about the AST, not about the text.  The parser folds
+   some *literal* constraints before the resolver sees them, so textual replacement and AST replacement differ there
+   (refuted, witnesses below): INTEGER (0..MAX) is folded to "unconstrained" only when the 0 is a literal; SIZE(0..MAX, ...)
+   is a parse error only when 0 and MAX are literals.  Further refuted: cyclic IMPORTS of an undefined name do not
+   return; with two loaded modules answering to the same import the load order decides
+   (C12_refuted_load_order_matters_with_duplicate_module_names).
    Repaired: a negative value used as SIZE wrapped to 2^64-|v| (fb434d2: now FailedToParseLiteral). *)
-From Coq Require Import String.
-From A1 Require Import Front.Resolve Front.ResolveProofs Extract.OpsParse.
+From Coq Require Import String Permutation.
+From A1 Require Import Front.Resolve Front.ResolveProofs Front.ResolveSubstProofs Extract.OpsParse.
 Local Open Scope N_scope.
 
 Theorem C12_subst_bound_partial : forall scope model name v,
@@ -52,6 +78,99 @@ Theorem C12_negative_size_is_error : forall scope model name v,
   value_reference scope (lookup_fuel scope) model name = Found (LInteger v) ->
   resolve_usize scope model (Ref name) = RErr (FailedToParseLiteral (name_prefix ++ name)).
 Proof. exact negative_usize. Qed.
+
+(* ---- whole types, definitions, modules, module sets (Front/ResolveSubstProofs.v) ---- *)
+
+(* t' = t with literals abstracted by references bound to them: same result *)
+Theorem C12_subst_type : forall Ms M t t',
+  abs_ty Ms M t t' -> resolve_ty Ms M t' = resolve_ty Ms M t.
+Proof. exact subst_ty. Qed.
+
+Theorem C12_subst_definition : forall Ms M a a',
+  abs_asn Ms M a a' -> resolve_asn Ms M a' = resolve_asn Ms M a.
+Proof. exact subst_asn. Qed.
+
+(* every module of the scope abstracted (each relative to the literal scope Ms and itself); the abstracted scope is
+   the one the lookups of the abstracted module run in *)
+Theorem C12_subst_module : forall Ms Ms' M M',
+  Forall2 (abs_model Ms) Ms Ms' -> abs_model Ms M M' -> resolve_model Ms' M' = resolve_model Ms M.
+Proof. exact subst_module. Qed.
+
+Theorem C12_subst_all : forall Ms Ms',
+  Forall2 (abs_model Ms) Ms Ms' -> resolve_all Ms' = resolve_all Ms.
+Proof. exact subst_all. Qed.
+
+(* the substitution as a function: no hypotheses *)
+Theorem C12_literalize_type : forall Ms M t, resolve_ty Ms M (lit_ty Ms M t) = resolve_ty Ms M t.
+Proof. exact literalize_ty. Qed.
+
+Theorem C12_literalize_module : forall Ms M, resolve_model (lit_scope Ms) (lit_model Ms M) = resolve_model Ms M.
+Proof. exact literalize_module. Qed.
+
+Theorem C12_literalize_all : forall Ms, resolve_all (lit_scope Ms) = resolve_all Ms.
+Proof. exact literalize_all. Qed.
+
+(* and it is an instance of the relation *)
+Theorem C12_literalize_is_abstraction : forall Ms, Forall2 (abs_model (lit_scope Ms)) (lit_scope Ms) Ms.
+Proof. exact lit_scope_abs. Qed.
+
+(* ... and it is complete: when the type / module resolves, its literalization contains no reference at all at an
+   INTEGER bound or a SIZE bound, and none at a DEFAULT outside the F12 exception ("every reference replaced") *)
+Theorem C12_literalize_complete_type : forall Ms M t r,
+  resolve_ty Ms M t = ROk r -> ~ ty_site any_ref any_ref (plain_default Ms M) (lit_ty Ms M t).
+Proof. exact literalize_complete_ty. Qed.
+
+Theorem C12_literalize_complete_module : forall Ms M r,
+  resolve_model Ms M = ROk r -> ~ model_site any_ref any_ref (plain_default Ms M) (lit_model Ms M).
+Proof. exact literalize_complete_module. Qed.
+
+(* errors: a reference that no module binds, anywhere in a type / module / module set *)
+Theorem C12_unresolved_is_error_type : forall Ms M t,
+  ty_site (ref_unresolved Ms M) (ref_unresolved Ms M) (ref_unresolved_default Ms M) t ->
+  forall r, resolve_ty Ms M t <> ROk r.
+Proof. exact unresolved_is_error_ty. Qed.
+
+Theorem C12_unresolved_is_error_module : forall Ms M,
+  model_site (ref_unresolved Ms M) (ref_unresolved Ms M) (ref_unresolved_default Ms M) M ->
+  forall r, resolve_model Ms M <> ROk r.
+Proof. exact unresolved_is_error_module. Qed.
+
+Theorem C12_unresolved_is_error_all : forall Ms M,
+  In M Ms -> model_site (ref_unresolved Ms M) (ref_unresolved Ms M) (ref_unresolved_default Ms M) M ->
+  forall rs, resolve_all Ms <> ROk rs.
+Proof. exact unresolved_is_error_all. Qed.
+
+(* errors: a non-INTEGER at a range / SIZE bound, a negative INTEGER at a SIZE bound *)
+Theorem C12_non_integer_is_error_type : forall Ms M t,
+  ty_site (ref_non_integer Ms M) (ref_non_size Ms M) (fun _ _ => False) t ->
+  forall r, resolve_ty Ms M t <> ROk r.
+Proof. exact non_integer_is_error_ty. Qed.
+
+Theorem C12_non_integer_is_error_module : forall Ms M,
+  model_site (ref_non_integer Ms M) (ref_non_size Ms M) (fun _ _ => False) M ->
+  forall r, resolve_model Ms M <> ROk r.
+Proof. exact non_integer_is_error_module. Qed.
+
+Theorem C12_non_integer_is_error_all : forall Ms M,
+  In M Ms -> model_site (ref_non_integer Ms M) (ref_non_size Ms M) (fun _ _ => False) M ->
+  forall rs, resolve_all Ms <> ROk rs.
+Proof. exact non_integer_is_error_all. Qed.
+
+(* load order *)
+Theorem C12_order_irrelevant_module : forall Ms Ms',
+  Permutation Ms Ms' -> (forall m, In m Ms -> unique_targets Ms m) ->
+  forall M, unique_targets Ms M -> resolve_model Ms' M = resolve_model Ms M.
+Proof. exact order_irrelevant_module. Qed.
+
+Theorem C12_order_irrelevant_all : forall Ms Ms',
+  Permutation Ms Ms' -> (forall m, In m Ms -> unique_targets Ms m) ->
+  forall rs, resolve_all Ms = ROk rs -> exists rs', resolve_all Ms' = ROk rs' /\ Permutation rs rs'.
+Proof. exact order_irrelevant_all. Qed.
+
+Theorem C12_order_irrelevant_all_error : forall Ms Ms',
+  Permutation Ms Ms' -> (forall m, In m Ms -> unique_targets Ms m) ->
+  (forall rs, resolve_all Ms <> ROk rs) -> forall rs', resolve_all Ms' <> ROk rs'.
+Proof. exact order_irrelevant_all_error. Qed.
 
 (* ---- witnesses, computed on the whole front-end model (tokenizer, parser, resolver) ---- *)
 
@@ -109,6 +228,107 @@ Example C12_nonvacuous :
   /\ hd 1%Z (op_3302 dev_mode ([2; Z.of_nat (length lib)] ++ lib ++ [Z.of_nat (length m)] ++ m)%Z) = 0%Z.
 Proof. split; vm_compute; reflexivity. Qed.
 
+(* ---- non-vacuity of the module-level theorems, on parsed module texts ---- *)
+
+Definition parsed (s : string) : option umodel :=
+  match tokenize dev_mode (s2n s) with
+  | Ok ts => match parse ts with POk u => Some u | _ => None end
+  | _ => None
+  end.
+
+(* imports by OID (under another module name) and by name, local binding `lo`, all three kinds of use site, a DEFAULT
+   that is an ENUMERATED item (kept by lit_scope: the F12 exception), load order with the library last: the
+   literalization of the parsed referencing module set IS the parsed literal module set *)
+Definition T_lib : string := "Lib { iso(1) 5 } DEFINITIONS ::= BEGIN hi INTEGER ::= 9 len INTEGER ::= 4 END".
+Definition T_other : string := "Other DEFINITIONS ::= BEGIN dflt INTEGER ::= 7 Color ::= ENUMERATED { red, green } END".
+Definition T_ref : string := "M DEFINITIONS ::= BEGIN IMPORTS hi, len FROM Elsewhere { iso(1) 5 } dflt, Color FROM Other; A ::= SEQUENCE { a INTEGER (0..hi), b OCTET STRING (SIZE(1..len)), c INTEGER DEFAULT dflt, d Color DEFAULT green, e SEQUENCE (SIZE(len)) OF BOOLEAN } lo INTEGER ::= 2 B ::= INTEGER (lo..hi) END".
+Definition T_lit : string := "M DEFINITIONS ::= BEGIN IMPORTS hi, len FROM Elsewhere { iso(1) 5 } dflt, Color FROM Other; A ::= SEQUENCE { a INTEGER (0..9), b OCTET STRING (SIZE(1..4)), c INTEGER DEFAULT 7, d Color DEFAULT green, e SEQUENCE (SIZE(4)) OF BOOLEAN } lo INTEGER ::= 2 B ::= INTEGER (2..9) END".
+
+Example C12_subst_nonvacuous :
+  exists lib other m_ref m_lit rs,
+    parsed T_lib = Some lib /\ parsed T_other = Some other /\ parsed T_ref = Some m_ref /\ parsed T_lit = Some m_lit /\
+    lit_scope [other; m_ref; lib] = [other; m_lit; lib] /\
+    Forall2 (abs_model [other; m_lit; lib]) [other; m_lit; lib] [other; m_ref; lib] /\
+    m_ref <> m_lit /\
+    resolve_all [other; m_ref; lib] = ROk rs /\ resolve_all [other; m_lit; lib] = ROk rs.
+Proof.
+  do 5 eexists.
+  split; [vm_compute; reflexivity|]. split; [vm_compute; reflexivity|].
+  split; [vm_compute; reflexivity|]. split; [vm_compute; reflexivity|].
+  match goal with |- ?A = ?B /\ _ => assert (E : A = B) by (vm_compute; reflexivity) end.
+  split; [exact E|]. split; [rewrite <- E; apply lit_scope_abs|].
+  split; [intros H; inversion H|].
+  split; vm_compute; reflexivity.
+Qed.
+
+(* a dangling reference / a BOOLEAN used as SIZE, deep inside a definition *)
+Definition T_bad : string := "M DEFINITIONS ::= BEGIN IMPORTS nope FROM Lib; A ::= SEQUENCE { a BOOLEAN, b CHOICE { x INTEGER (0..nope) } } END".
+Definition T_bad2 : string := "M DEFINITIONS ::= BEGIN IMPORTS flag FROM Lib; A ::= SEQUENCE { a BOOLEAN, b SET OF OCTET STRING (SIZE(flag)) } END".
+Definition T_lib2 : string := "Lib DEFINITIONS ::= BEGIN flag BOOLEAN ::= TRUE END".
+
+Example C12_error_nonvacuous :
+  exists lib m1 m2,
+    parsed T_lib2 = Some lib /\ parsed T_bad = Some m1 /\ parsed T_bad2 = Some m2 /\
+    model_site (ref_unresolved [lib; m1] m1) (ref_unresolved [lib; m1] m1) (ref_unresolved_default [lib; m1] m1) m1 /\
+    model_site (ref_non_integer [lib; m2] m2) (ref_non_size [lib; m2] m2) (fun _ _ => False) m2.
+Proof.
+  do 3 eexists.
+  split; [vm_compute; reflexivity|]. split; [vm_compute; reflexivity|]. split; [vm_compute; reflexivity|].
+  split.
+  - eapply site_definition; [left; reflexivity|]. apply site_asn_ty.
+    eapply site_Sequence_ty; [right; left; reflexivity|].
+    eapply site_Choice; [left; reflexivity|]. apply site_Integer_hi. vm_compute. reflexivity.
+  - eapply site_definition; [left; reflexivity|]. apply site_asn_ty.
+    eapply site_Sequence_ty; [right; left; reflexivity|].
+    apply site_SetOf_ty. apply site_OctetString. apply site_SFix.
+    eexists. split; [vm_compute; reflexivity|]. intros v H; discriminate.
+Qed.
+
+(* REFUTED without the uniqueness condition: two loaded modules called Lib both define x; the one loaded first wins *)
+Definition T_l1 : string := "Lib DEFINITIONS ::= BEGIN x INTEGER ::= 1 END".
+Definition T_l2 : string := "Lib DEFINITIONS ::= BEGIN x INTEGER ::= 2 END".
+Definition T_m : string := "M DEFINITIONS ::= BEGIN IMPORTS x FROM Lib; A ::= INTEGER (0..x) END".
+Definition set3 (a b c : string) : list Z :=
+  ([3; Z.of_nat (length (txt a))] ++ txt a ++ [Z.of_nat (length (txt b))] ++ txt b ++ [Z.of_nat (length (txt c))] ++ txt c)%Z.
+
+Example C12_refuted_load_order_matters_with_duplicate_module_names :
+  exists l1 l2 m r12 r21,
+    parsed T_l1 = Some l1 /\ parsed T_l2 = Some l2 /\ parsed T_m = Some m /\
+    resolve_model [l1; l2; m] m = ROk r12 /\ resolve_model [l2; l1; m] m = ROk r21 /\ r12 <> r21 /\
+    m_definitions r12 = [(s2n "A", (None, TInteger (Some 0%Z, Some 1%Z, false) [], None))] /\
+    m_definitions r21 = [(s2n "A", (None, TInteger (Some 0%Z, Some 2%Z, false) [], None))] /\
+    op_3302 dev_mode (set3 T_l1 T_l2 T_m) <> op_3302 dev_mode (set3 T_l2 T_l1 T_m).
+Proof.
+  do 5 eexists.
+  split; [vm_compute; reflexivity|]. split; [vm_compute; reflexivity|]. split; [vm_compute; reflexivity|].
+  split; [vm_compute; reflexivity|]. split; [vm_compute; reflexivity|].
+  split; [intros H; inversion H|].
+  split; [vm_compute; reflexivity|]. split; [vm_compute; reflexivity|].
+  vm_compute. intros H; inversion H.
+Qed.
+
+(* the uniqueness condition holds for the module set of C12_subst_nonvacuous *)
+Example C12_order_nonvacuous :
+  exists lib other m_ref,
+    parsed T_lib = Some lib /\ parsed T_other = Some other /\ parsed T_ref = Some m_ref /\
+    (forall m, In m [lib; other; m_ref] -> unique_targets [lib; other; m_ref] m) /\
+    Permutation [lib; other; m_ref] [m_ref; other; lib] /\
+    exists rs, resolve_all [lib; other; m_ref] = ROk rs.
+Proof.
+  do 3 eexists.
+  split; [vm_compute; reflexivity|]. split; [vm_compute; reflexivity|]. split; [vm_compute; reflexivity|].
+  split.
+  - intros m Hm imp m1 m2 Himp H1 H2 Hp1 Hp2.
+    cbn [In] in Hm, H1, H2.
+    destruct Hm as [Hm|[Hm|[Hm|[]]]]; subst m; cbn [m_imports In] in Himp; try contradiction.
+    destruct Himp as [Himp|[Himp|[]]]; subst imp;
+    destruct H1 as [H1|[H1|[H1|[]]]]; subst m1; destruct H2 as [H2|[H2|[H2|[]]]]; subst m2;
+      try reflexivity; vm_compute in Hp1; vm_compute in Hp2; discriminate.
+  - split.
+    + apply Permutation_rev.
+    + eexists. vm_compute. reflexivity.
+Qed.
+
 Print Assumptions C12_subst_bound_partial.
 Print Assumptions C12_subst_size_bound_partial.
 Print Assumptions C12_subst_default_partial.
@@ -119,3 +339,26 @@ Print Assumptions C12_negative_size_is_error.
 Print Assumptions C12_fixed_negative_size_reference_is_error.
 Print Assumptions C12_refuted_reference_in_size_0_max_extensible_accepted.
 Print Assumptions C12_refuted_cyclic_import_diverges.
+Print Assumptions C12_subst_type.
+Print Assumptions C12_subst_definition.
+Print Assumptions C12_subst_module.
+Print Assumptions C12_subst_all.
+Print Assumptions C12_literalize_type.
+Print Assumptions C12_literalize_module.
+Print Assumptions C12_literalize_all.
+Print Assumptions C12_literalize_is_abstraction.
+Print Assumptions C12_literalize_complete_type.
+Print Assumptions C12_literalize_complete_module.
+Print Assumptions C12_unresolved_is_error_type.
+Print Assumptions C12_unresolved_is_error_module.
+Print Assumptions C12_unresolved_is_error_all.
+Print Assumptions C12_non_integer_is_error_type.
+Print Assumptions C12_non_integer_is_error_module.
+Print Assumptions C12_non_integer_is_error_all.
+Print Assumptions C12_order_irrelevant_module.
+Print Assumptions C12_order_irrelevant_all.
+Print Assumptions C12_order_irrelevant_all_error.
+Print Assumptions C12_subst_nonvacuous.
+Print Assumptions C12_error_nonvacuous.
+Print Assumptions C12_refuted_load_order_matters_with_duplicate_module_names.
+Print Assumptions C12_order_nonvacuous.
